@@ -148,6 +148,10 @@ def check(rep, ctx):
                     dp.append("mutable default")
                 if "src" in d and d["src"].startswith(("[", "{")):
                     dp.append("mutable default")
+            extra_kw = sorted(set(f.get("field_kw") or []) - {"metadata", "default"})
+            if extra_kw:
+                dp.append(f"field() is given {extra_kw}: only metadata and default keep every field part of __init__, __eq__ and __hash__ "
+                          f"(compare=False / hash=False make instances that differ in this field equal)")
             rep.check(R_F, not dp, construct=f"{c['key']}.{f['name']}", stmt=field_stmt(f), message="; ".join(dp), **fw)
     # decoded values: nothing mutable may be handed out by a reader
     from .. import scan
